@@ -539,6 +539,9 @@ static void child_main(const struct vh_driver* d, uint64_t resume_after, int res
   d->run();
   S->done = 1;
   fflush(NULL);
+#ifdef VH_COV
+  { extern void __gcov_dump(void); __gcov_dump(); }
+#endif
   _exit(0);
 }
 
